@@ -148,13 +148,29 @@ def run_case(acc, cseed, spec, stack_holder):
         from ..simdev.transport import Fault
         pre = _copy.deepcopy(req)
         how = rng.choice(["device-refuses", "device-refuses", "time-out", "last-block-garbage",
-                          "last-block-truncated"])
+                          "last-block-truncated", "coinbase-count-overflow",
+                          "coinbase-count-overflow"])
+        if how == "coinbase-count-overflow" and not is_adv:
+            how = "device-refuses"
         if how == "time-out" and plat != "ledger":
             how = "device-refuses"   # (socket failures are not classified by the dongle layer)
         if how == "last-block-garbage":
             pre["blocks"][-1] = "f8" + rng.randbytes(20).hex()
         elif how == "last-block-truncated":
             pre["blocks"][-1] = pre["blocks"][-1][:-rng.choice([2, 20, 200])]
+        elif how == "coinbase-count-overflow":
+            # a block (or brother) whose compressed coinbase claims so many hashed bytes
+            # that the bit length no longer fits 64 bits, tail not a multiple of 64 bytes:
+            # whatever the answer to THAT request, the hasher is clean for the next
+            import struct as _st
+            cnt = rng.choice([2**61, 2**61 - 64, 2**62, 2**63, 2**64 - 64])
+            comp = _st.pack(">Q", cnt) + rng.randbytes(32) + rng.randbytes(
+                rng.choice([1, 7, 31, 63, 65, 100]))
+            badb = gb.gen_block(rng, rng.choice([19, 20]), coinbase=comp)["raw"].hex()
+            if rng.random() < 0.5 or not pre["brothers"]:
+                pre["blocks"][rng.randrange(len(pre["blocks"]))] = badb
+            else:
+                pre["brothers"][0] = pre["brothers"][0] + [badb]
         elif how == "device-refuses":
             s.bus.arm({rng.randint(0, 3 * nb + 2): Fault("sw", sw=rng.choice(
                 [0x6B87, 0x6B88, 0x6B90, 0x6B94, 0x6A8F]))})
